@@ -2,6 +2,7 @@ import PqV.Lemmas.Plain
 import PqV.Lemmas.Varint
 import PqV.Gen.SkipDef
 import PqV.Lemmas.KPlain
+import PqV.Gen.RangeIndex
 /-!
 # C01 — write → read round trip under every write option
 
@@ -155,5 +156,56 @@ theorem writer_level_block_decodes (bits tail : List Nat) (hb : ∀ v ∈ bits, 
 example : writerPackBools [1, 0, 1, 1, 0, 0, 0, 1] = [141, 0] := by decide
 
 end writerBlock
+
+section rangeIndex
+open PqV.Gen.RangeIndex
+
+/-- Python's `len(range(start, stop, step))` for a non-zero step -/
+def rangeLen (start stop step : Int) : Nat :=
+  if 0 < step then (if start < stop then ((stop - start - 1) / step + 1).toNat else 0)
+  else (if stop < start then ((start - stop - 1) / (-step) + 1).toNat else 0)
+
+theorem ediv_pred (n s : Int) (hs : 0 < s) : (n * s - 1) / s = n - 1 := by
+  have e : n * s - 1 = (s - 1) + (n - 1) * s := by ring
+  rw [e, Int.add_mul_ediv_right _ _ (by omega), Int.ediv_eq_zero_of_lt (by omega) (by omega)]
+  omega
+
+/-- **a written RangeIndex is regenerated with exactly as many labels as rows, for every start, every non-zero step
+    (negative steps too) and every row count**: `pre_allocate` rebuilds `RangeIndex(start, stop, step)[:size]` with the
+    `stop` expression REGENERATED from api.py; the slice keeps `min size len` labels, and this theorem says that is
+    `size`, so assigning the index to the frame cannot fail and label `i` is `start + i·step`.  (With the earlier
+    `start + size·step + 1` the statement is false exactly for `step = -1`, see below.) -/
+theorem range_index_regenerated_now (start step : Int) (size : Nat) (h : step ≠ 0) :
+    slicedToSize = true ∧ min size (rangeLen start (stopExpr start step size) step) = size := by
+  refine ⟨by decide, ?_⟩
+  unfold rangeLen stopExpr
+  by_cases hs : 0 < step
+  · simp only [hs, if_true]
+    rcases Nat.eq_zero_or_pos size with h0 | hpos
+    · subst h0; simp
+    · have hlt : start < start + (size : Int) * step := by
+        have : 0 < (size : Int) * step := Int.mul_pos (by exact_mod_cast hpos) hs
+        omega
+      have e : start + (size : Int) * step - start - 1 = (size : Int) * step - 1 := by ring
+      simp only [hlt, if_true, e, ediv_pred _ _ hs]
+      omega
+  · have hneg : step < 0 := by omega
+    simp only [hs, if_false]
+    rcases Nat.eq_zero_or_pos size with h0 | hpos
+    · subst h0; simp
+    · have hlt : start + (size : Int) * step < start := by
+        have : (size : Int) * step < 0 := Int.mul_neg_of_pos_of_neg (by exact_mod_cast hpos) hneg
+        omega
+      have e : start - (start + (size : Int) * step) - 1 = (size : Int) * (-step) - 1 := by ring
+      simp only [hlt, if_true, e, ediv_pred _ _ (by omega : 0 < -step)]
+      omega
+
+/-- the formula the code had before repair (`stop = start + size·step + 1`) regenerates one label too few for
+    `RangeIndex(10, 6, -1)`: 3 labels for 4 rows — pandas then refuses the index (`Length mismatch`) -/
+theorem old_stop_formula_short : min 4 (rangeLen 10 (10 + 4 * (-1) + 1) (-1)) = 3 := by decide
+
+example : rangeLen 5 13 2 = 4 ∧ rangeLen 10 6 (-1) = 4 ∧ rangeLen 0 (-12) (-3) = 4 ∧ rangeLen 3 3 1 = 0 := by decide
+
+end rangeIndex
 
 end PqV.Props.C01
